@@ -47,13 +47,16 @@ func DrainFrameProblems(c *Ctx, prop string) {
 	frameProblems = nil
 }
 
-func frameDecodeInto(m *jt808.JTMessage, data []byte) (ans string) {
+func frameDecodeInto(m *jt808.JTMessage, data []byte) (ans string) { return frameDecodeRaw(m, Exact(data)) }
+
+// frameDecodeRaw decodes the slice as given (no copy)
+func frameDecodeRaw(m *jt808.JTMessage, data []byte) (ans string) {
 	defer func() {
 		if r := recover(); r != nil {
 			ans = "panic"
 		}
 	}()
-	if err := m.Decode(Exact(data)); err != nil {
+	if err := m.Decode(data); err != nil {
 		return ProtoErrCode(err)
 	}
 	// Header.ProtocolVersion (1-2011 2-2013 3-2019) is the exported reading of the version bit: a decode can
@@ -71,6 +74,7 @@ func frameDecodeInto(m *jt808.JTMessage, data []byte) (ans string) {
 var (
 	reusedMsg     = jt808.NewJTMessage() // ONE JTMessage that decodes every case after the fresh one did
 	reusedPrevReq string
+	reusedBuf     []byte
 )
 
 // FrameDecode: jt808 Decode with a fresh JTMessage on an exact-capacity copy, panics reported.  The same
@@ -78,7 +82,15 @@ var (
 // the fresh one (a decoded frame may not depend on what the receiver decoded before).
 func FrameDecode(data []byte) (ans string) {
 	ans = frameDecodeInto(jt808.NewJTMessage(), data)
-	again := frameDecodeInto(reusedMsg, data)
+	// the reused receiver reads every frame from ONE buffer that the caller overwrites in place (a read loop's
+	// buffer): whatever the receiver kept from the previous decode - including slices into that buffer - and the
+	// stale bytes beyond the slice's length must not show
+	if cap(reusedBuf) < len(data) {
+		reusedBuf = make([]byte, 0, 2*len(data)+64)
+	}
+	inplace := reusedBuf[:len(data)]
+	copy(inplace, data)
+	again := frameDecodeRaw(reusedMsg, inplace)
 	if again != ans && len(frameProblems) < 50 {
 		frameProblems = append(frameProblems, FrameProblem{Kind: "reused-receiver",
 			What:     "the same frame decodes differently on a JTMessage that decoded other frames before",
@@ -134,12 +146,20 @@ func atoi(s string) int {
 func init() {
 	// decode <frame-hex>
 	RegisterOp("decode", func(a []string) string { return FrameDecode(Unhx(a[0])) })
-	// decodeseq <frame-hex> ... : all frames on ONE JTMessage, answer = the last decode (replay of reused-receiver)
+	// decodeseq <frame-hex> ... : all frames on ONE JTMessage, each copied in place into ONE buffer; answer = the last
+	// decode (replay of reused-receiver)
 	RegisterOp("decodeseq", func(a []string) string {
 		m := jt808.NewJTMessage()
 		ans := "none"
+		buf := make([]byte, 0, 4096)
 		for _, x := range a {
-			ans = frameDecodeInto(m, Unhx(x))
+			d := Unhx(x)
+			if cap(buf) < len(d) {
+				buf = make([]byte, 0, 2*len(d))
+			}
+			in := buf[:len(d)]
+			copy(in, d)
+			ans = frameDecodeRaw(m, in)
 		}
 		return ans
 	})
